@@ -159,7 +159,18 @@ VW_Once(seq, l, s)      == NoDupSeq(seq)
 VW_HeadFirst(seq, l, s) == Len(seq) > 0 /\ HeadsOf(s.H, l) = {seq[1]}
 VW_AfterPred(seq, l, s) == \A j \in 2..Len(seq) : seq[j] \in DOMAIN s.H =>
                               \E i \in 1..(j-1) : seq[i] \in DOMAIN s.H /\ seq[j] \in SeqSet(Fwd(s.H[seq[i]]))
-\* hk = [iter, iterexc, views : level -> seq, viewexc : level -> string]
+\* the view started at an explicit head h of level l: exactly what is reachable from h inside the level along the declared forward
+\* targets (a region continued at its own outgoing targets), each once, h first, every other item after one of its predecessors
+RECURSIVE GrowIn(_, _, _, _)
+GrowIn(H, l, seen, fr) ==
+  IF fr = {} THEN seen
+  ELSE LET nw == ((UNION {SeqSet(Fwd(H[u])) : u \in fr}) \cap Level(H, l)) \ seen IN GrowIn(H, l, seen \cup nw, nw)
+VW_From(seq, h, l, s) ==
+  /\ SeqSet(seq) = GrowIn(s.H, l, {h}, {h})
+  /\ NoDupSeq(seq)
+  /\ Len(seq) > 0 /\ seq[1] = h
+  /\ VW_AfterPred(seq, l, s)
+\* hk = [iter, iterexc, views : level -> seq, viewexc : level -> string, (from : level -> head -> seq)]
 FailedViews(hk, s) ==
   (IF hk.iterexc # "" THEN {"IterRaises"} ELSE
      {c \in {"IterComplete", "IterOnce", "IterHeadFirst"} :
@@ -175,6 +186,8 @@ FailedViews(hk, s) ==
                [] c = "ViewHeadFirst" -> VW_HeadFirst(hk.views[l], l, s)
                [] c = "ViewAfterPred" -> VW_AfterPred(hk.views[l], l, s)}
         : l \in DOMAIN hk.views}
+  \cup (IF "from" \notin DOMAIN hk THEN {}
+        ELSE UNION {UNION {IF h \in Level(s.H, l) /\ ~VW_From(hk.from[l][h], h, l, s) THEN {"ViewFromHead"} ELSE {} : h \in DOMAIN hk.from[l]} : l \in DOMAIN hk.from})
 
 (***************************** C17 rendering *******************************)
 \* d = [exc, parseexc, nodes : name -> [cluster, lname, asg, var, tab, offs, expoffs], clusters : name -> [parent, lname],
